@@ -6,5 +6,5 @@ CONSTANTS Senders = {s1, s2, s3}
           LockNeeded = TRUE
           Grain = "fine"
 INVARIANTS TypeOK NoReuse AboveHs BelowCeil Increasing Accounted
-PROPERTIES NoRewind
+PROPERTIES NoRewind Monotone
 CHECK_DEADLOCK FALSE
